@@ -14,7 +14,7 @@ CLAIMED = {
          "Lean proof over the queue model + differential correspondence (memory, SQLite)"),
  "C05": ("proof", "Lean: dequeue count between min(batch, must-offer) and min(batch, may-offer), no starvation, nack visibility exact, restart preserves; tie: fine-clock traces incl. restart on SQLite", "§7 C05",
          "Lean proof over the queue model + differential correspondence (memory, SQLite)"),
- "C06": ("proof", "Lean: total classification table (classify_spec), bounded sends for every behaviour sequence, exact-arithmetic delay bounds, terminal reasons; tie: exhaustive status table + scripted cycles through the real classifyDelivery/handleDelivery, retryDelay float vs exact model", "§7 C06",
+ "C06": ("proof", "Lean: total classification table (classify_spec), bounded sends for every behaviour sequence, exact-arithmetic delay bounds, terminal reasons; the body of classifyDelivery TRANSLATED by go/ast into a straight-line program each run and proved equal to the model's classify for every input, with every attempt recorded (code_classify_is_model, code_records_every_attempt); tie: exhaustive status table + scripted cycles through the real classifyDelivery/handleDelivery, retryDelay float vs exact model", "§7 C06",
          "Lean proof of the decision logic + exhaustive/differential correspondence"),
  "C16": ("proof", "Lean: allowed => scheme/https/rebind(no listed address class, by range arithmetic)/deny/allow conditions; every redirect hop checked; denied sends nothing; tie: URL x resolver x policy differential through real checkEgressPolicy, address-class edges, redirect chains through the real HTTPDeliverer", "§7 C16",
          "Lean proof of the decision logic + differential correspondence"),
